@@ -115,3 +115,32 @@ package table
 //@   assert[later-half-second] before call NewMergeIterator#3 : len(arg0) == len(iters) - len(iters) / 2 && arg1 == reverse
 //@   assert[halves-in-order] before call NewMergeIterator#1 : len(arg0) == 2 && arg0[1] == ret(NewMergeIterator#3) && arg1 == reverse
 
+// Block encryption (C23): every block is encrypted with the table's data key under a freshly
+// generated IV, which is stored in the last 16 bytes of the block; decryption takes the IV from
+// there and uses the table's data key on the rest.
+//@ func (*Builder).encrypt
+//@   props C23
+//@   light
+//@   assert[fresh-iv-per-block] before call XORBlock : called(GenerateIV#1) && ret1(GenerateIV#1) == nil && arg3 == ret0(GenerateIV#1)
+//@   assert[with-table-data-key] before call XORBlock : arg2 == ret(DataKey#1).Data && arg1 == data && len(arg0) == len(data)
+//@   assert[iv-stored-after-ciphertext] before call copy : arg1 == ret0(GenerateIV#1)
+//@   assert[room-for-iv] before call Allocate : arg1 == len(data) + len(ret0(GenerateIV#1))
+
+//@ func (*Table).decrypt
+//@   props C23
+//@   light
+//@   assert[iv-from-tail] before call XORBlock : old(len(data)) >= 16 ==> len(arg3) == 16 && len(arg1) == old(len(data)) - 16 && sameRegion(arg1, old(data)) && sameRegion(arg3, old(data))
+//@   assert[with-table-data-key] before call XORBlock : arg2 == t.opt.DataKey.Data && (!viaCalloc ==> len(arg0) == len(arg1))
+
+//@ func (*Builder).shouldEncrypt
+//@   props C23
+//@   requires b != nil && b.opts != nil
+//@   ensures result <==> b.opts.DataKey != nil
+//@   assigns nothing
+
+//@ func (*Table).shouldDecrypt
+//@   props C23
+//@   requires t != nil && t.opt != nil
+//@   ensures result <==> t.opt.DataKey != nil
+//@   assigns nothing
+
